@@ -157,10 +157,22 @@ func runBatcherClockPoint(t *testing.T, c bcpCase) (fired bool, err error) {
 			addSub()
 		}
 		synctest.Wait()
+		// Batch reads the clock on the caller's goroutine, so the injected call may be running concurrently with
+		// these two (it gets a bounded number of yields): lastVal is written under mu, and when an injected
+		// Batch of key 0 had not returned by the time Batch(0, 100) returned, which of the two calls is the
+		// more recent one is not defined - either value is accepted for key 0 then.
+		ambiguous0 := false
 		b.Batch(0, 100)
+		mu.Lock()
+		if c.Inject == "batch-same" && injected.Load() && !injectedReturned.Load() {
+			ambiguous0 = true
+		}
 		lastVal[0] = 100
+		mu.Unlock()
 		b.Batch(1, 110)
+		mu.Lock()
 		lastVal[1] = 110
+		mu.Unlock()
 		synctest.Wait()
 		for _, ms := range c.Steps {
 			fake.Step(time.Duration(ms) * time.Millisecond)
@@ -206,6 +218,9 @@ func runBatcherClockPoint(t *testing.T, c bcpCase) (fired bool, err error) {
 					}
 				}
 				for k, v := range lastVal {
+					if k == 0 && ambiguous0 && seenV[100]+seenV[200] >= 1 {
+						continue
+					}
 					if seenV[v] != 1 {
 						errs.Failf("the value %d of the most recent Batch call for key %d was not delivered although the clock is far past its interval (sequence %v)", v, k, ref)
 						mu.Unlock()
